@@ -165,9 +165,6 @@ Fixpoint last_index_of (i : nat) (cfg : list centry) (p : name) (cur : Z) : Z :=
   | [] => cur
   | e :: r => last_index_of (S i) r p (if name_eqb (split (fst e)) p then Z.of_nat i else cur)
   end.
-(** owner = entry registered for the longest component-wise prefix of the name *)
+(** owner = entry registered for the longest component-wise prefix of the name, else -1 *)
 Definition owner (cfg : list centry) (inst : str) : Z :=
-  match filter (fun p => 0 <=? last_index_of 0 cfg p (-1)) (rev (prefixes (split inst))) with
-  | [] => -1
-  | p :: _ => last_index_of 0 cfg p (-1)
-  end.
+  lpv_f (fun p => last_index_of 0 cfg p (-1)) (split inst).
